@@ -143,6 +143,15 @@ func carried(typ string, m map[string]string) map[string]string {
 		if c["Fields"] == "m-" { // an empty map is written as count 0 and read back as nil
 			c["Fields"] = "n"
 		}
+		if f := c["Fields"]; strings.Contains(f, "~Z") { // a nil value is written as an empty TextValue
+			es := strings.Split(f[1:], "&")
+			for i, e := range es {
+				if strings.HasSuffix(e, "~Z") {
+					es[i] = e[:len(e)-1] + "T-"
+				}
+			}
+			c["Fields"] = "m" + strings.Join(es, "&")
+		}
 		if c["ErrorLevel"] == "i0" && c["Error"] != "i0" { // the decoder's deliberate default
 			c["ErrorLevel"] = "i20"
 		}
@@ -216,6 +225,10 @@ type replayCase struct {
 	History []histEntry `json:"history,omitempty"`
 	Order   []int       `json:"order,omitempty"`
 	Mutate  bool        `json:"mutate_originals,omitempty"`
+	// op = legacy: a TxRecord as an older agent wrote it
+	Ver        int `json:"version_byte,omitempty"`
+	MtidFlag   int `json:"mtid_flag,omitempty"`
+	CallerFlag int `json:"caller_flag,omitempty"`
 }
 type replayItem struct {
 	Type string `json:"type"`
@@ -681,7 +694,7 @@ func main() {
 	c := &ctx{env: env, rep: rep, sampled: map[string]int{}}
 	rep.Rule = "objects of every step type (9 registered, 2 unregistered), 3 service types, TxRecord and 3 profile packs with reflection-filled fields " +
 		"(edges of every width class, empty/nil/long strings, blobs and arrays, attribute maps); step streams of 1..200 (thorough 2000) steps; " +
-		"all 2^5 combinations of TxRecord's optional sections; histories of k in {2,3,5} live encodings (step profiles, packs via SetProfile, TxRecord, services) produced one after another with the originals changed in between, decoded in a different order, inputs overwritten afterwards (thorough: also produced from several goroutines); a case is its canonical field text — two cases are distinct when any field differs; all generated cases are non-trivial"
+		"all 2^5 combinations of TxRecord's optional sections (custom fields with nil values included); TxRecords as older agents wrote them (version bytes 10..255 and < 10, multi-trace presence bytes 1..255, caller flags 1,3,4,5,6 and unknown ones) synthesised by the harness; raw streams behind the unregistered type codes 22 and 18; histories of k in {2,3,5} live encodings (step profiles, packs via SetProfile, TxRecord, services) produced one after another with the originals changed in between, decoded in a different order, inputs overwritten afterwards (thorough: also produced from several goroutines); a case is its canonical field text — two cases are distinct when any field differs; all generated cases are non-trivial"
 
 	if env.Replay != "" {
 		runReplay(c, env.Replay)
